@@ -16,6 +16,7 @@ import (
 	"os"
 	"os/exec"
 	"path/filepath"
+	"regexp"
 	"runtime"
 	"sort"
 	"strconv"
@@ -31,6 +32,15 @@ var (
 	repoDir  = envOr("VERIF_REPO", "/repo")
 	goBin    = envOr("VERIF_GO", "go1.26.8")
 )
+
+func keysOf(m map[string]bool) []string {
+	var ks []string
+	for k := range m {
+		ks = append(ks, k)
+	}
+	sort.Strings(ks)
+	return ks
+}
 
 func envOr(k, d string) string {
 	if v := os.Getenv(k); v != "" {
@@ -146,25 +156,46 @@ func prepare(variant string, race bool) (string, *instrument.Result) {
 	if !ok {
 		fatalInfra("unknown variant %s", variant)
 	}
-	r, err := instrument.Generate(repoDir, inject, tmp, v)
-	if err != nil {
+	// optional hooks (inject/pkg/**/zz_verif_opt_*.go) rely on private names of otter; if a changed tree no longer has
+	// them, the hook is replaced by its stub (inject/stubs) and the build is retried: the checks then run without that
+	// piece of introspection instead of failing as an infrastructure error
+	stubs := map[string]bool{}
+	optRe := regexp.MustCompile(`zz_verif_opt_[a-z0-9_]+\.go`)
+	var r *instrument.Result
+	for attempt := 0; ; attempt++ {
 		os.RemoveAll(tmp)
-		fatalInfra("instrumenting %s: %v", repoDir, err)
-	}
-	args := []string{"build", "-tags", "verif", "-overlay", r.OverlayPath, "-o", filepath.Join(tmp, "worker")}
-	if race {
-		args = append(args, "-race")
-	}
-	args = append(args, "./internal/verif/worker")
-	cmd := exec.Command(goBin, args...)
-	cmd.Dir = repoDir
-	cmd.Env = goEnv()
-	var out bytes.Buffer
-	cmd.Stdout = &out
-	cmd.Stderr = &out
-	if err := cmd.Run(); err != nil {
-		os.RemoveAll(tmp)
-		fatalInfra("building instrumented worker (%s): %v\n%s", name, err, out.String())
+		var err error
+		r, err = instrument.Generate(repoDir, inject, tmp, v, stubs)
+		if err != nil {
+			os.RemoveAll(tmp)
+			fatalInfra("instrumenting %s: %v", repoDir, err)
+		}
+		args := []string{"build", "-tags", "verif", "-overlay", r.OverlayPath, "-o", filepath.Join(tmp, "worker")}
+		if race {
+			args = append(args, "-race")
+		}
+		args = append(args, "./internal/verif/worker")
+		cmd := exec.Command(goBin, args...)
+		cmd.Dir = repoDir
+		cmd.Env = goEnv()
+		var out bytes.Buffer
+		cmd.Stdout = &out
+		cmd.Stderr = &out
+		err = cmd.Run()
+		if err == nil {
+			break
+		}
+		added := false
+		for _, name := range optRe.FindAllString(out.String(), -1) {
+			if !stubs[name] {
+				stubs[name], added = true, true
+			}
+		}
+		if !added || attempt >= 3 {
+			os.RemoveAll(tmp)
+			fatalInfra("building instrumented worker (%s): %v\n%s", name, err, out.String())
+		}
+		fmt.Fprintf(os.Stderr, "note: optional hooks no longer compile against this tree and are replaced by stubs: %v\n", keysOf(stubs))
 	}
 	b, _ := json.Marshal(r)
 	os.WriteFile(filepath.Join(tmp, "instrument.json"), b, 0o644)
